@@ -10,11 +10,12 @@ import (
 
 func main() {
 	verifio.Main(map[string]verifio.Runner{
-		"arb": func(f []string) string { return k8s.VerifArb(verifio.KV(f)) },
+		"arb":   func(f []string) string { return k8s.VerifArb(verifio.KV(f)) },
 		"polst": func(f []string) string { return k8s.VerifPolicyStatus(verifio.KV(f)) },
-		"eps": func(f []string) string { return k8s.VerifEps(verifio.KV(f)) },
-		"refs": func(f []string) string { return k8s.VerifRefs(verifio.KV(f)) },
-		"lbc": func(f []string) string { return k8s.VerifLbc(verifio.KV(f)) },
-		"cls": func(f []string) string { return k8s.VerifClass(verifio.KV(f)) },
+		"eps":   func(f []string) string { return k8s.VerifEps(verifio.KV(f)) },
+		"refs":  func(f []string) string { return k8s.VerifRefs(verifio.KV(f)) },
+		"crash": func(f []string) string { return k8s.VerifCrash(verifio.KV(f)) },
+		"lbc":   func(f []string) string { return k8s.VerifLbc(verifio.KV(f)) },
+		"cls":   func(f []string) string { return k8s.VerifClass(verifio.KV(f)) },
 	})
 }
